@@ -422,6 +422,12 @@ def run(tier, seed):
 
 
 def extra_parts(ck, tier, seed):
+    from checks import c12_trace
+    c12_trace.run(ck, tier, seed)
+    _extra_parts(ck, tier, seed)
+
+
+def _extra_parts(ck, tier, seed):
     """Hooks for parts added later (trace validation, pipeline quiescence)."""
     try:
         import checks.c12_extra as X
@@ -434,6 +440,17 @@ def replay(path):
     with open(path) as f:
         body = json.load(f)
     rp = body.get('replay') or {}
+    if rp.get('kind') == 'c12-trace':
+        from checks import c12_trace
+        import pipeline
+        ev, failure, info, stuck_nb, errs, scripts = c12_trace.record_one(
+            rp['cap'], rp['nthreads'], rp['tags'], rp['seed'],
+            pipeline.make_chooser(tuple(rp['chooser'])))
+        print('scripts:', scripts)
+        for i, e in enumerate(ev, 1):
+            print(i, {k: v for k, v in e.items() if v not in ('', -1)})
+        print('failure:', failure, info, 'non-blocking acquirers left blocked:', stuck_nb)
+        return 1
     if rp.get('kind') == 'c12-seq':
         from s3transfer.utils import SlidingWindowSemaphore
         sem = SlidingWindowSemaphore(rp['cap'])
